@@ -315,35 +315,18 @@ def c_identity(ctx, t, argfn):
     name_tests = ret0_tests({NAME_EQ: False}, lambda s: "action_uid" not in s and "InternalEvents" not in s)
     uid_tests = ret0_tests({UID_EQ: False, "ref_event.action_uid is None": False}, lambda s: "action_uid" in s)
     for a in umim:
-        ok = any(cfg.dominates(nt, a) and a not in cfg.reachable(edge(nt, v)) for nt, v in name_tests)
+        # path-sensitive: with the two names different, the argument scoring of action events cannot be reached (whatever the nesting / polarity of the tests)
+        ok = a not in cfg.reachable_under([cfg.entry], {NAME_EQ: False}) and bool(name_tests)
         ctx.check("C04.c.identity", SM, unit, "name before arguments", ok, "`ref_event.name != event.name => 0.0` dominates the argument scoring of action events", line=a.line)
-        ok = False
-        msg = "no `action_uid` inequality test returning 0.0"
-        for g, gv in uid_tests:
-            # the enclosing hasattr guard (if any)
-            h = g
-            p = getattr(g.stmt, "_parent", None)
-            while p is not None and p is not fn:
-                if isinstance(p, ast.If) and "hasattr" in src(p.test) and "action_uid" in src(p.test):
-                    h = cfg.node_of(p.test)
-                p = getattr(p, "_parent", None)
-            if isinstance(g.stmt, ast.If) and "hasattr" in src(g.stmt.test) and h is g:
-                # merged form: `hasattr(...) and hasattr(...) and <uid test>` in one condition is its own guard
-                pass
-            if not cfg.dominates(h, a):
-                msg = "the action_uid test (or its hasattr guard) does not dominate the argument scoring"
-                continue
-            if h is g:
-                ok = a not in cfg.reachable(edge(g, gv))
-            else:
-                first = [m for m, lab in h.succ if lab is True]
-                reach = cfg.reachable(first, avoid={g})
-                ok = a not in reach and a not in cfg.reachable(edge(g, gv))
-                if not ok:
-                    msg = "a path from the hasattr guard reaches the argument scoring without the action_uid comparison"
-            if ok:
-                msg = "a statement referring to a specific action instance returns 0.0 for events of another instance before arguments are scored"
-                break
+        # a statement that refers to a specific action instance (expected uid not None) and an event of ANOTHER instance (uids differ), both events carrying the attribute:
+        # the scoring is unreachable, for known and unknown actions alike
+        facts = {UID_EQ: False, "ref_event.action_uid is None": False, "hasattr(event,'action_uid')": True, "hasattr(ref_event,'action_uid')": True, NAME_EQ: True}
+        reach = cfg.reachable_under([cfg.entry], facts)
+        ok = bool(uid_tests) and a not in reach
+        msg = "a statement referring to a specific action instance returns 0.0 for events of another instance before arguments are scored" if ok else (
+            "no `action_uid` inequality test returning 0.0" if not uid_tests else
+            "the argument scoring can be reached although the statement names another action instance than the event's (the instance test is skipped on some path, "
+            "e.g. for an action the state does not know): `match $ref.Finished()` advances on another instance's event")
         ctx.check("C04.c.identity", SM, unit, "action instance before arguments", ok, msg, line=a.line)
     # internal events
     internal = [n for n in scoring if n not in umim and any(isinstance(p, ast.If) and "InternalEvents.ALL" in src(p.test) for p in _anc(n.ast, fn))]
